@@ -315,7 +315,7 @@ var c17MessageWords = func() map[string]bool {
 
 func init() {
 	fw.Register(&fw.Check{
-		ID: "C17",
+		ID:   "C17",
 		Rule: "a case is a batch of featgram grammars (lexer: literals, (class) rules with keyword specialisations, (space) rules, named patterns, %s/%x start conditions, typed tokens and rule code, priorities; parser: several inputs incl. no-eoi, lists with and without separators, optionals, nested choices, arrows/fields/%interface categories/node flags, typed nonterminals and semantic actions, mid-rule actions, precedence and %prec, error recovery, (?= A & !B) lookaheads, template flags and rule predicates, named sets, %inject, lalr(2), custom %% templates) each under an option vector from a pairwise covering array over the 25 options of DESIGN C17 (columns permuted/complemented per seed and pass); a grammar is non-trivial when the compiler accepted it and gen.Generate wrote files that reached `go build`; distinct = distinct (option vector, feature set, generated text hash)",
 		Assumptions: []string{
 			"the Go toolchain (go build -gcflags=-e) is the oracle for 'forms Go packages that build'",
